@@ -459,7 +459,7 @@ class StateMachine(object):  # pylint: disable=too-many-public-methods
     def ar_8(self):
         """Issue A-RELEASE indication (release collision)."""
         self.to_service_user.put(self.primitive)
-        if self.provider.requestor == 1:
+        if self.provider.requestor:
             return States.STA_9
         return States.STA_10
 
